@@ -60,7 +60,7 @@ def geometry_reader(option, iter_text, cls, valid, tag_when):
         geo = SObj('Geo_Container', label='geo')
         eng.summaries['Geo_Container.append'] = lambda e, a, k: appended.append(a[1])
         var = ast.unparse(loop.target.elts[1])
-        env = {'n': fresh_int('n'), var: s, 'geo': geo, 'f_err': AStr([('lit', '<stderr>')])}
+        env = {MS.tnames(loop)[0]: fresh_int('n'), var: s, 'geo': geo, 'f_err': AStr([('lit', '<stderr>')])}
         out = MS.run_stmts(eng, loop.body, env)
         eng.cover('%s-%s' % (option, lab))
         MS.containment(eng, name + '/' + lab, out)
@@ -122,7 +122,7 @@ def t_excitation_reader(eng):
     m = SObj('Mininec', label='m')
     default = eng.choose(2) == 1
     args = MS.args_ns(eng, excitation_pulse=SList([('conc', [p])]))
-    env = {'p': p, 'v': v, 'm': m, 'default_excitation': default, 'args': args, 'f_err': AStr([('lit', '<stderr>')])}
+    env = {MS.tnames(loop)[0]: p, MS.tnames(loop)[1]: v, 'm': m, 'default_excitation': default, 'args': args, 'f_err': AStr([('lit', '<stderr>')])}
     out = MS.run_stmts(eng, loop.body, env)
     eng.cover('exc-' + lab)
     MS.containment(eng, name + '/' + lab, out)
@@ -192,7 +192,7 @@ def t_attach_reader(eng):
     loads = SList([('seq', SSeq(nl, lambda i: SObj('Impedance_Load', eng.uf('load.at', z3.IntSort(), z3.IntSort())(term(i)), label='ld'), 'loads'))])
     used = eng.load_global('set')
     from pyvc.engine import SSet
-    env = {'x': x, 'm': m, 'loads': loads, 'used_loads': SSet(None), 'f_err': AStr([('lit', '<stderr>')])}
+    env = {MS.tnames(loop)[0]: x, 'm': m, 'loads': loads, 'used_loads': SSet(None), 'f_err': AStr([('lit', '<stderr>')])}
     out = MS.run_stmts(eng, loop.body, env)
     eng.cover('attach-' + lab)
     MS.containment(eng, name + '/' + lab, out)
@@ -241,7 +241,7 @@ def t_medium_reader(eng):
     media = SList()
     bnd = AStr([('fld', None, 'text', 'linear')])
     rad = {'nradials': fresh_int('nr'), 'radius': fresh_real('rr')} if eng.choose(2) else {}
-    env = {'n': n, 'm': mtxt, 'media': media, 'rad': rad, 'args': MS.args_ns(eng, boundary=bnd),
+    env = {MS.tnames(loop)[0]: n, MS.tnames(loop)[1]: mtxt, 'media': media, 'rad': rad, 'args': MS.args_ns(eng, boundary=bnd),
            'f_err': AStr([('lit', '<stderr>')])}
     out = MS.run_stmts(eng, loop.body, env)
     eng.cover('medium-' + lab)
@@ -281,7 +281,7 @@ def t_taper_reader(eng):
     by_tag = eng.getfield(geo, 'by_tag')
     is_wire = eng.choose(2) == 0
     eng.summaries['Wire.segtype.setter'] = lambda e, a, k: a[0].fields.__setitem__('segtype_set', a[1])
-    env = {'t': t, 'geo': geo, 'f_err': AStr([('lit', '<stderr>')])}
+    env = {MS.tnames(loop)[0]: t, 'geo': geo, 'f_err': AStr([('lit', '<stderr>')])}
     sch = eng.schema
     sch[('Geo_Container', 'by_tag')] = 'dict:obj:Wire' if is_wire else 'dict:obj:Arc'
     out = MS.run_stmts(eng, loop.body, env)
@@ -335,7 +335,7 @@ def t_load_readers(eng):
     eng.summaries[cls + '.__init__'] = ctor
     eng.inline.add('parse_floatlist')
     loads = SList()
-    env = {'l': l, 'loads': loads, 'f_err': AStr([('lit', '<stderr>')])}
+    env = {MS.tnames(loop)[0]: l, 'loads': loads, 'f_err': AStr([('lit', '<stderr>')])}
     out = MS.run_stmts(eng, loop.body, env)
     lab = '%s/%d-fields' % (opt, nf)
     eng.cover('load-%d-%d' % (which, nf))
@@ -512,7 +512,7 @@ def t_scale_reader(eng):
             raise PyRaise('KeyError', ('unknown tag',))
         calls.append(list(a))
     eng.summaries['Geo_Container.scale'] = scale
-    env = {'scl': txt, 'geo': SObj('Geo_Container', label='geo'), 'f_err': AStr([('lit', '<stderr>')])}
+    env = {MS.tnames(loop)[0]: txt, 'geo': SObj('Geo_Container', label='geo'), 'f_err': AStr([('lit', '<stderr>')])}
     out = MS.run_stmts(eng, loop.body, env)
     eng.cover('scale-' + lab)
     MS.containment(eng, name + '/' + lab, out)
@@ -640,7 +640,7 @@ def distributed_reader(option, loop_text, cls, valid, value_fields):
         eng.summaries['Geo_Container.__iter__'] = lambda e, a, k: SList([('conc', list(wires))])
         eng.schema[('Geo_Container', 'by_tag')] = 'dict:obj:Wire'
         by_tag = eng.getfield(geo, 'by_tag')
-        env = {'l': l, 'm': m, 'f_err': AStr([('lit', '<stderr>')])}
+        env = {MS.tnames(loop)[0]: l, 'm': m, 'f_err': AStr([('lit', '<stderr>')])}
         out = MS.run_stmts(eng, loop.body, env)
         eng.cover('%s-%s' % (option, lab))
         MS.containment(eng, name + '/' + lab, out)
@@ -986,8 +986,15 @@ def t_frequency_guard(eng):
             return z3.fpIsNaN(num(e.args[0]))
         raise Unres('expression form in the frequency guard: %s' % ast.unparse(e)[:40])
 
+    # locals that hold the option value (`frq = args.frequency`)
+    alias = set(st.targets[0].id for st in g.body if isinstance(st, ast.Assign) and len(st.targets) == 1
+                and isinstance(st.targets[0], ast.Name) and ast.unparse(st.value).replace(' ', '') == 'args.frequency')
+
+    def is_f(e):
+        return ast.unparse(e).replace(' ', '') == 'args.frequency' or (isinstance(e, ast.Name) and e.id in alias)
+
     def num(e):
-        if ast.unparse(e).replace(' ', '') == 'args.frequency':
+        if is_f(e):
             return f
         if isinstance(e, ast.Constant) and isinstance(e.value, (int, float)) and not isinstance(e.value, bool):
             return z3.FPVal(float(e.value), F64)
@@ -996,9 +1003,12 @@ def t_frequency_guard(eng):
         raise Unres('operand in the frequency guard: %s' % ast.unparse(e)[:40])
 
     from pyvc.source import Unresolved as Unres
+    steps_alias = set(st.targets[0].id for st in g.body if isinstance(st, ast.Assign) and len(st.targets) == 1
+                      and isinstance(st.targets[0], ast.Name) and 'args.frequency_' in ast.unparse(st.value).replace(' ', ''))
     guards = [st for st in g.body if isinstance(st, ast.If)
-              and any(ast.unparse(t).replace(' ', '') == 'args.frequency' for t in ast.walk(st.test) if isinstance(t, ast.Attribute))
-              and not any(isinstance(t, ast.Attribute) and t.attr.startswith('frequency_') for t in ast.walk(st.test))
+              and any(is_f(t) for t in ast.walk(st.test) if isinstance(t, (ast.Attribute, ast.Name)))
+              and not any((isinstance(t, ast.Attribute) and t.attr.startswith('frequency_')) or
+                          (isinstance(t, ast.Name) and t.id in steps_alias) for t in ast.walk(st.test))
               and any(isinstance(t, ast.Return) for t in ast.walk(st))]
     if not guards:
         raise Unres('a guard statement on args.frequency in main')
